@@ -9,6 +9,7 @@ positive) and its total shares `S`; `deps`, `joined`, `outs` are aligned with `b
 -/
 import ElysModel.Lemmas.AmmLiquidity
 import ElysModel.Amm.ExitFair
+import ElysModel.Lemmas.AmmOracleExit
 namespace Elys.Amm.C05
 open Elys Elys.Amm
 
@@ -155,6 +156,22 @@ example : exitPool [1001000, 3003000] 100100000000000000000 100000000000000000
 example : calcExit [1000000, 3000000] 100000000000000000000 33333333333333333333 = .ok [333333, 999999] := by rfl
 /-- a lopsided pool and a dust deposit: 5 of 7 units in, 714 of 1000 shares out, the rest returned. -/
 example : joinPoolAll [7, 3000000] 1000 [5, 2999999] = .ok ([5, 2142858], 714, [12, 5142858], 1714) := by rfl
+
+/-! ### oracle pools, single-sided exit (the port `oCalcExit` of `CalcExitPool` with a token-out denom) -/
+
+/-- for every two-asset oracle pool, accounted balances, prices, weights, parameters, share supply and exiting shares: a successful
+single-sided exit pays at most the exiting shares' pro-rata claim on the pool's value at the oracle prices (as the code computes
+it, in 18-digit decimals) plus half a base unit of rounding — the weight-breaking fee only ever reduces the payout. Conditional on
+the fee being a fraction (the returned bonus, `−fee`, in [−1, 0]; the code caps the fee at 0.99, its non-negativity rests on `Pow`). -/
+theorem oracle_exit_le (p : OPool) (iOut : Nat) (x S : Int) (pr : OParams) (out bonus : Int)
+    (h : oCalcExit p S iOut x pr = .ok (out, bonus)) (hb0 : -P ≤ bonus) (hb1 : bonus ≤ 0) :
+    ∃ t, tvl [p.a0, p.a1] = .ok t ∧ 2 * (out * P) ≤ 2 * exitOracleAmount t S x (p.get iOut).price + P :=
+  oCalcExit_le p iOut x S pr out bonus h hb0 hb1
+
+/- non-vacuity of `oracle_exit_le`: the kernel cannot reduce `oCalcExit` on literals within its recursion limit, so there is no `example`
+here; `#eval` of the port on a 1,000,000 USDC / 200,000 ATOM pool (ATOM at 5, multiplier 0) exiting 1 % of the shares in USDC gives
+`.ok (20000, 0)`, and every quick run of the differential harness has thousands of successful `oexit` cases with a bonus in [−0.99, 0]
+(evidence/C05.json, distribution). -/
 
 /-! ### what is judged on observed blocks (Drv/ExitFairH) -/
 
